@@ -61,12 +61,19 @@ def start_server(outdir, fmt, port, tmp):
     raise RuntimeError("server did not start")
 
 
-def client(port, script, pace, log):
-    """script: list of ('send', bytes) | ('close',) ; waits for a reply after every send except EOT"""
+def client(port, script, pace, log, barrier=None):
+    """script: list of ('send', bytes) | ('barrier',) | ('close',) ; waits for a reply after every send except EOT"""
     try:
         s = socket.create_connection(("127.0.0.1", port), timeout=5)
         s.settimeout(3)
         for step in script:
+            if step[0] == "barrier":
+                if barrier is not None:
+                    try:
+                        barrier.wait(20)
+                    except threading.BrokenBarrierError:
+                        pass
+                continue
             time.sleep(pace())
             if step[0] == "send":
                 s.sendall(step[1])
@@ -90,19 +97,19 @@ def lower_cs(f):
     return body[:-2] + body[-2:].lower() + f[len(body):]
 
 
-def session_script(r, conformant, force_lower=False):
-    """returns (script, events) ; events = what the connection's protocol instance receives"""
+def session_script(r, conformant, force_lower=False, burst=False):
+    """returns (script, events, kinds) ; events = what the connection's protocol instance receives.
+    A connection carries 1-3 segments one after the other: complete sessions, sessions with damaged frames that are
+    retransmitted, transfers given up with EOT in the middle of a multi-frame run, empty transfers; it may end by
+    disconnecting in the middle of a transfer.  burst: the last EOT is sent when all clients have reached it."""
     from harness.props import C03
-    kind = r.choice(["complete", "complete", "complete", "retransmit", "abandoned", "unfinished-run", "keepalive", "two-sessions"])
-    if force_lower:
-        kind = "complete"
-    script, events = [], []
+    script, events, kinds = [], [], []
 
     def add(d):
         script.append(("send", d))
         events.append(("d", d))
 
-    def one_session(ok=True, retransmit=False):
+    def one_session(retransmit=False, last=False):
         add(gens.ENQ)
         for _ in range(r.choice([1, 1, 2, 3])):
             text = C03.json_conformant_text(r) if conformant else None
@@ -113,31 +120,38 @@ def session_script(r, conformant, force_lower=False):
                 if retransmit and (r.random() < 0.5 or (fi > 0 and fi < len(frames) - 1) or fi == len(frames) - 1):
                     add(gens.corrupt(r, f)[0])
                 add(f)
+        if last and burst:
+            script.append(("barrier",))
         add(gens.EOT)
-    if kind == "complete":
-        one_session()
-    elif kind == "two-sessions":
-        one_session()
-        one_session()
-    elif kind == "retransmit":
-        one_session(retransmit=True)
-        one_session(retransmit=True)
-    elif kind == "abandoned":
-        add(gens.ENQ)
-        frames, _ = gens.message_frames(r, seq=1, parts=1, text=C03.json_conformant_text(r) if conformant else None)
-        add(frames[0])
-        script.append(("close",))
-        events.append(("L",))
-    elif kind == "unfinished-run":
-        add(gens.ENQ)
-        add(gens.frame(1, gens.text_bytes(r, 6), final=False))
-        add(gens.EOT)
+
+    if force_lower or burst:
+        segs = ["complete"]
     else:
-        add(gens.ENQ)
-        add(gens.EOT)
-    if events[-1] != ("L",):
-        events.append(("L",))
-    return script, events, kind
+        segs = [r.choice(["complete", "complete", "retransmit", "unfinished-run", "keepalive"])
+                for _ in range(r.choice([1, 1, 2, 3]))]
+        if r.random() < 0.2:
+            segs.append("abandoned")
+    for i, kind in enumerate(segs):
+        kinds.append(kind)
+        if kind == "complete":
+            one_session(last=(i == len(segs) - 1))
+        elif kind == "retransmit":
+            one_session(retransmit=True)
+        elif kind == "unfinished-run":
+            add(gens.ENQ)
+            for _ in range(r.choice([1, 2])):
+                add(gens.frame(r.randrange(8), gens.text_bytes(r, 6), final=False))
+            add(gens.EOT)
+        elif kind == "keepalive":
+            add(gens.ENQ)
+            add(gens.EOT)
+        elif kind == "abandoned":
+            add(gens.ENQ)
+            frames, _ = gens.message_frames(r, seq=1, parts=1, text=C03.json_conformant_text(r) if conformant else None)
+            add(frames[0])
+            script.append(("close",))
+    events.append(("L",))
+    return script, events, "+".join(kinds)
 
 
 def expected_files(fmt, all_events, ctx):
@@ -196,14 +210,15 @@ def same_multiset(files, expected):
     return not files
 
 
-def one_run(r, fmt, ctx, stream):
+def one_run(r, fmt, ctx, stream, burst=False):
     tmp = tempfile.mkdtemp(prefix="astm-c14-")
     outdir = os.path.join(tmp, "out")
     os.makedirs(outdir)
     port = free_port()
-    n_clients = r.choice([3, 4, 6, 8])
+    n_clients = r.choice([10, 14]) if burst else r.choice([3, 4, 6, 8])
     conformant = fmt in ("json", None)
-    scripts = [session_script(r, conformant, force_lower=(i == 0)) for i in range(n_clients)]
+    scripts = [session_script(r, conformant, force_lower=(i == 0 and not burst), burst=burst) for i in range(n_clients)]
+    barrier = threading.Barrier(n_clients) if burst else None
     proc = start_server(outdir, fmt, port, tmp)
     try:
         logs = [[] for _ in scripts]
@@ -213,7 +228,8 @@ def one_run(r, fmt, ctx, stream):
             import random
             rr = random.Random(seed)
             return lambda: rr.choice([0, 0, 0.001, 0.005, 0.02])
-        threads = [threading.Thread(target=client, args=(port, sc[0], pacer(sd), lg)) for sc, sd, lg in zip(scripts, seeds, logs)]
+        threads = [threading.Thread(target=client, args=(port, sc[0], pacer(sd), lg, barrier))
+                   for sc, sd, lg in zip(scripts, seeds, logs)]
         [t.start() for t in threads]
         [t.join(30) for t in threads]
         # wait for the archive to settle
@@ -238,9 +254,11 @@ def one_run(r, fmt, ctx, stream):
     kinds = [sc[2] for sc in scripts]
     case = {"format": fmt, "clients": [[gens.ev_hex(e) for e in sc[1]] for sc in scripts], "kinds": kinds,
             "files": len(files)}
-    incomplete = any(k in ("abandoned", "unfinished-run", "keepalive") for k in kinds)
-    stream.case(case, nontrivial=n_clients >= 2 and incomplete)
+    incomplete = any(x in k for k in kinds for x in ("abandoned", "unfinished-run", "keepalive"))
+    stream.case(case, nontrivial=n_clients >= 2 and (incomplete or burst))
     stream.count("format=%s" % fmt)
+    if burst:
+        stream.count("simultaneous-eot-burst")
     if problems:
         stream.fail(case, problems[0], "server-runs/not-rendered")
     if not same_multiset(files, exp_decl):
@@ -264,6 +282,9 @@ def run(ctx):
         for _ in range(n):
             one_run(r, fmt, ctx, s)
     one_run(r, None, ctx, s)      # no -m option: json by default
+    # many instruments finishing at the same moment: all EOTs are sent when every client has reached its EOT
+    for fmt in (["json", "astm", "json", "lis2a"] if ctx.thorough else ["json"]):
+        one_run(r, fmt, ctx, s, burst=True)
     return [s]
 
 
